@@ -11,6 +11,7 @@ G-PROJ projects (ground truth for bindings and definition lines) and G-SRC texts
 """
 import ast
 import builtins
+import os
 import io
 import keyword
 import tokenize
@@ -30,6 +31,7 @@ RULE = (
     "non-empty prefix and >= 1 proposal, or a definition lookup on a token whose binding lives in another module; distinct by "
     "(case hash, offset, variant)"
     "; texts include regular block structures with comments at drawn indentations; completeness is also asked with later_locals=False for names imported above the cursor"
+    "; a scenario family with definition lines known by construction: keyword arguments of calls to functions, methods, constructors and callable instances (classes with __init__ and __call__), forward references in source order, asked through get_definition_location and find_definition"
 )
 ASSUMPTIONS = [
     "definition line conventions: imports are transparent (a from-imported or dotted name leads to the def/class/first assignment "
@@ -37,7 +39,7 @@ ASSUMPTIONS = [
     "to its first assignment, an attribute to its first assignment in the defining class",
     "completeness is asked with later_locals=True (the documented 'all locals of the function' mode)",
 ]
-BUDGET = {"quick": (260, 240), "thorough": (6000, 2700)}
+BUDGET = {"quick": (340, 240), "thorough": (7500, 2700)}
 
 
 @st.composite
@@ -72,8 +74,129 @@ def block_texts(draw):
     return "".join(out)
 
 
+@st.composite
+def def_scenarios(draw):
+    """small modules where "where is this name defined" has an answer known by construction and a non-obvious route:
+    keyword arguments of calls to functions, methods, constructors and callable instances (a class with both __init__ and
+    __call__, possibly with equally named parameters), and forward references in source order (a function reading a
+    module constant assigned further down, a method calling a method defined later, also through another module)"""
+    pn = draw(st.sampled_from(["offset", "scale", "mode"]))
+    qn = draw(st.sampled_from(["limit", "width"]))
+    has_init = draw(st.booleans())
+    init_same = draw(st.booleans())
+    call_first = draw(st.booleans())
+    lines, queries = [], []  # queries: (marker text, occurrence index, expected line number or marker of the line)
+
+    def add(text):
+        lines.append(text)
+        return len(lines)
+
+    add("import os")
+    l_early = add("def early(value, %s=0):" % qn)
+    add("    return value + LATE + %s + helper_late(value)" % qn)
+    cls_parts = []
+    if has_init:
+        cls_parts.append(("init", ["    def __init__(self, factor, %s=0):" % (pn if init_same else qn), "        self.factor = factor"]))
+    cls_parts.append(("call", ["    def __call__(self, value, %s=0):" % pn, "        return value + %s + self.later(value)" % pn]))
+    if not call_first:
+        cls_parts.reverse() if draw(st.booleans()) else None
+    add("class Scaler:")
+    where = {}
+    for tag, body in cls_parts:
+        where[tag] = add(body[0])
+        for b in body[1:]:
+            add(b)
+    where["meth"] = add("    def meth(self, value, %s=1):" % qn)
+    add("        return self.later(value) + %s" % qn)
+    where["later"] = add("    def later(self, value):")
+    add("        return value + LATE")
+    l_late = add("LATE = 5")
+    l_helper = add("def helper_late(value):")
+    add("    return value")
+    ctor_kw = (pn if init_same else qn) if has_init else None
+    add("inst = Scaler(2%s)" % (", %s=3" % ctor_kw if ctor_kw else "") if has_init else "inst = Scaler()")
+    l_use = len(lines)
+    add("r1 = inst(10, %s=1)" % pn)
+    add("r2 = inst.meth(4, %s=2)" % qn)
+    add("r3 = early(1, %s=2)" % qn)
+    src = "\n".join(lines) + "\n"
+    exp = []
+
+    def q(line_no, text, name, want):
+        col = lines[line_no - 1].index(text) + text.index(name)
+        off = sum(len(l) + 1 for l in lines[: line_no - 1]) + col
+        exp.append([off, name, want])
+
+    q(l_use + 1, "%s=1" % pn, pn, where["call"])
+    q(l_use + 2, "%s=2" % qn, qn, where["meth"])
+    q(l_use + 3, "%s=2" % qn, qn, l_early)
+    if ctor_kw:
+        q(l_use, "%s=3" % ctor_kw, ctor_kw, where["init"])
+    q(l_early + 1, "LATE", "LATE", l_late)
+    q(l_early + 1, "helper_late", "helper_late", l_helper)
+    q(where["later"] + 1, "LATE", "LATE", l_late)
+    q(where["call"] + 1, "self.later", "later", where["later"])
+    q(where["meth"] + 1, "self.later", "later", where["later"])
+    other = draw(st.booleans())
+    return {"kind": "defs", "src": src, "expect": exp, "other": other}
+
+
+def _evaluate_defs(case, out):
+    from rope.base import exceptions as rex
+    from rope.base.project import Project
+    from rope.contrib import codeassist, findit
+
+    root = core.fresh_dir("c20d")
+    files = {"lib.py": case["src"]}
+    if case["other"]:
+        files["use.py"] = "import lib\nv = lib.LATE + lib.early(1)\n"
+    for p_, t_ in files.items():
+        with open(os.path.join(root, p_), "w") as f:
+            f.write(t_)
+    project = Project(root, ropefolder=None)
+    try:
+        res = project.get_file("lib.py")
+        src = case["src"]
+        checks = [("lib.py", src, off, name, ("lib.py", want)) for off, name, want in case["expect"]]
+        if case["other"]:
+            u = files["use.py"]
+            late_line = next(w for _, n, w in case["expect"] if n == "LATE")
+            checks.append(("use.py", u, u.index("LATE"), "LATE", ("lib.py", late_line)))
+            checks.append(("use.py", u, u.index("early"), "early", ("lib.py", src.split("\n").index(next(l for l in src.split("\n") if l.startswith("def early"))) + 1)))
+        for path, text, off, name, want in checks:
+            r_ = project.get_file(path)
+            for shift in (0, len(name) - 1):
+                for api in ("get_definition_location", "find_definition"):
+                    out.evals += 1
+                    try:
+                        if api == "get_definition_location":
+                            gres, gline = codeassist.get_definition_location(project, text, off + shift, r_)
+                            got = ((gres.path if gres is not None else path) if gline is not None else None, gline)
+                        else:
+                            loc = findit.find_definition(project, text, off + shift, r_)
+                            got = (None, None) if loc is None else ((loc.resource.path if loc.resource is not None else path), loc.lineno)
+                    except rex.RopeError:
+                        out.refused += 1
+                        continue
+                    except Exception as e:
+                        out.violation("C20:internal_error:%s:%s" % (api, type(e).__name__), "%r at %s:%d" % (e, path, off + shift))
+                        return
+                    if got != want:
+                        out.violation(
+                            "C20:scenario:%s:%s" % (api, "keyword" if text[off + len(name):off + len(name) + 1] == "=" else "forward_reference"),
+                            "%s:%d %r: expected %s, got %s\n%s" % (path, off + shift, name, want, got, text),
+                        )
+                        return
+        out.nontrivial.add(("defs", case["src"].count("__init__"), case["other"]))
+        out.labels["definition_scenarios"] += 1
+    finally:
+        project.close()
+        core.rmtree(root)
+
+
 def strategy(tier):
     return st.one_of(
+        def_scenarios(),
         projgen.projects().map(lambda c: dict(c, kind="proj")),
         projgen.projects().map(lambda c: dict(c, kind="proj")),
         srcgen.grammar(budget=22).map(lambda s: {"kind": "text", "src": s}),
@@ -84,6 +207,8 @@ def strategy(tier):
 def describe(case):
     if case["kind"] == "text":
         return {"kind": "text", "src": case["src"][:400]}
+    if case["kind"] == "defs":
+        return {"kind": "defs", "src": case["src"][:700], "other": case["other"]}
     return c02.describe(case)
 
 
@@ -369,6 +494,9 @@ def _definition_check(out, case, project, env):
 
 def evaluate(case, env):
     out = core.Outcome()
+    if case["kind"] == "defs":
+        _evaluate_defs(case, out)
+        return out
     if case["kind"] == "text":
         from rope.base.project import Project
 
